@@ -35,6 +35,7 @@ Definition sched_final (n : nat) (s : list tid) : sobs := schedp_final get_defau
 Definition sched_trace (n : nat) (s : list tid) : list sobs := schedp_trace get_default_instance_prog n s.
 Definition sched_prog : list instr := get_default_instance_prog.
 Definition sched_well_locked (p : list instr) : bool := well_locked expected_kws p.
+Definition sched_shape (p : list instr) : option bool := shape_of expected_kws p.
 
 (* ---- violations (decidable; what the search stage looks for) ------------------------------- *)
 (* thread t has returned an object that is not (or no longer) fully initialised *)
